@@ -143,7 +143,7 @@ def run(tier, replay):
         raise vlib.ToolError("vacuity guard: TLC never took action(s) %s" % idle)
     if thorough:
         r = run_tlc("MC_Auth.tla", "MC_Auth_thorough.cfg", D, workers=8, timeout=2400, work_id="c17-mc", heap="8g")
-        ctx.add_tlc("Auth, Dev={}: 3 uids, 3 live, 2 passwords, 4 tokens, clock 0..4", r)
+        ctx.add_tlc("Auth, Dev={}: 3 uids, 3 live, 2 passwords, 3 tokens, clock 0..4", r)
         ctx.require_tlc_ok("MC_Auth_thorough", r)
 
     # beyond the exhaustive bound: random behaviours of the spec with up to 5 simultaneous users, 3 passwords,
